@@ -28,7 +28,7 @@ type ExSpec struct {
 func (e *ExSpec) Body() []byte { return gen.Filler(e.BodyLen, e.BodyTag) }
 
 type AuthSpec struct {
-	Fixture int `json:"fixture"` // -1 = the CA certificate
+	Fixture int `json:"fixture"`  // -1 = the CA certificate
 	OCSPLen int `json:"ocsp_len"` // -1 = absent
 	SCTLen  int `json:"sct_len"`  // -1 = absent
 }
@@ -156,6 +156,16 @@ func (s *Spec) WriteMustFail() (bool, string) {
 		for u, n := range count {
 			if n > 1 {
 				return true, "b2 cannot hold several responses for " + u
+			}
+		}
+	}
+	plain := map[string]int{}
+	for i := range s.Exchanges {
+		if s.Exchanges[i].Group == 0 {
+			u := mustURL(s.Exchanges[i].URL).String()
+			plain[u]++
+			if plain[u] > 1 {
+				return true, "several responses without a Variants header for " + u
 			}
 		}
 	}
@@ -316,9 +326,7 @@ func Gen(t *rapid.T) *Spec {
 	if len(s.Exchanges) > 0 && rapid.IntRange(0, 19).Draw(t, "dupurl") == 0 {
 		d := exchange(t, s.Exchanges[0].URL)
 		s.Exchanges = append(s.Exchanges, d)
-		s.Groups = append(s.Groups, VariantGroup{ID: 1, URL: d.URL, Defect: "no-variants-header"})
-		// mark both as belonging to a defective pseudo group WITHOUT adding headers: handled by WriteMustFail via count
-		s.Groups = nil
+		// both stay plain (no Variants header): WriteMustFail reports it
 		return finish(t, s, true)
 	}
 	if s.Version == "b1" && rapid.IntRange(0, 2).Draw(t, "variants") == 0 {
